@@ -16,7 +16,9 @@ RULE = ('Hypothesis-generated packets (type 0..6 - binary types reached by '
         'interoperation (reference encoder with other legal JSON escaping / '
         'whitespace choices -> Packet decode), binary admission; encode() '
         'of one packet object is repeatable, also after another packet '
-        'failed to encode (set / object / tuple-key / raw bytes payload); the '
+        'failed to encode (set / object / tuple-key / raw bytes payload), '
+        'and after an earlier binary packet of the same type and namespace '
+        'with another number of attachments; the '
         'packet object that '
         'decoding + add_attachment produced re-encodes to the prescribed '
         'frames (relaying). '
@@ -113,6 +115,15 @@ def check_case(case):
     if pkt.packet_type != etype:
         raise Violation('promotion', 'type %r after construction, expected %r'
                         % (pkt.packet_type, etype))
+    if etype in (5, 6):
+        # an earlier binary packet of the same type on the same namespace,
+        # with another number of attachments
+        tmp = []
+        refcodec.deconstruct(data, tmp)
+        other = [b'o'] * (len(tmp) + 1)
+        P.Packet(ptype if ptype in (2, 3) else etype - 3,
+                 data=(['earlier'] if etype == 5 else []) + other,
+                 namespace=nsp, id=pid).encode()
     enc0 = pkt.encode()
     # an earlier packet of the application could not be encoded: that is the
     # application's problem, and changes nothing for the packets after it
